@@ -65,7 +65,9 @@ theorem wire_wellformed_partial (s0 : W) (h0 : Fresh s0) (hf : s0.faults = []) (
     ∃ fs, Spec.decodeStream (run s0 ops).wire = some fs ∧ Spec.WellFormed ⟨!s0.isServer, s0.nego⟩ fs :=
   WireWF.wire_wellformed_partial s0 h0 hf ops ha he
 
-/-- with transport faults the whole frames that reached the wire are still well-formed -/
+/-- with transport faults the whole frames that reached the wire are still well-formed (`_partial`: under the same
+    two hypotheses as `wire_wellformed_partial` — `Admissible`: prepared images are well-formed frames for this role;
+    `EnvAdmissible`: the compress/flate answers are consistent) -/
 theorem wire_wellformed_prefix_partial (s0 : W) (h0 : Fresh s0) (ops : List Op)
     (ha : WireWF.Admissible s0 ops) (he : WireWF.EnvAdmissible s0 ops) :
     Spec.WellFormed ⟨!s0.isServer, s0.nego⟩ (Spec.decodePrefixAux (run s0 ops).wire.length (run s0 ops).wire) :=
